@@ -70,9 +70,18 @@ def r17_1(run):
     tests = [n for n, s in cfg.stmt.items() if cfg.label[n] == "If" and norm(s) == f"isinstance({a0}, Tensor)"]
     ok = bool(unwrap) and any(cfg.edge_dominates(tt, "true", cfg.node_for(unwrap[0])) for tt in tests)
     rets = [r for r in own_nodes(asa.node) if isinstance(r, ast.Return) and cfg.node_for(r) is not None and cfg.reachable(cfg.node_for(r))]
-    ok2 = bool(rets) and all(isinstance(r.value, ast.Call) and fx.ext_name_of(asa, r.value.func) == "numpy.asarray"
-                             and norm(r.value.args[0]) == a0 and norm(kw(r.value, "dtype") or ast.Constant(0)) == "dtype"
-                             and norm(kw(r.value, "order") or ast.Constant(0)) == "order" for r in rets)
+    def _opt(call_, name_, pos_):
+        v_ = kw(call_, name_)
+        if v_ is None and len(call_.args) > pos_:
+            v_ = call_.args[pos_]   # np.asarray(a, dtype, order): the same parameters by position
+        return norm(v_) if v_ is not None else None
+    # the unwrapping may be written in place: np.asarray(a.data if isinstance(a, Tensor) else a, ...)
+    inplace_unwrap = f"{a0}.data if isinstance({a0}, Tensor) else {a0}"
+    ok2 = bool(rets) and all(isinstance(r.value, ast.Call) and fx.ext_name_of(asa, r.value.func) == "numpy.asarray" and r.value.args
+                             and norm(r.value.args[0]) in (a0, inplace_unwrap) and _opt(r.value, "dtype", 1) == "dtype"
+                             and _opt(r.value, "order", 2) == "order" for r in rets)
+    if rets and all(isinstance(r.value, ast.Call) and r.value.args and norm(r.value.args[0]) == inplace_unwrap for r in rets):
+        ok = True
     run.ob("R17.1", loc(asa, asa.node), asa.short, "asarray unwraps a tensor's .data and defers to np.asarray(a, dtype=, order=)", ok and ok2,
            "no copy unless NumPy needs one" if ok and ok2 else "asarray does not reuse the tensor's memory / drops dtype or order")
     d = _defaults(asa.node)
